@@ -135,6 +135,7 @@ impl StateMachine<'_> {
     ) -> std::io::Result<()> {
         use DiffType::*;
         use State::*;
+        self.painter.paint_buffered_minus_and_plus_lines();
         self.painter.emit()?;
 
         write_merge_conflict_bar(
